@@ -163,6 +163,35 @@ func init() {
 						}
 					}
 				}
+				// the same with a lexer that carries a Context: every token, before and after Reset, must carry it
+				if im.NewLexerCtx != nil && !looped {
+					rawAll := func(l rt.Lexer) string {
+						s := ""
+						for i := 0; i <= len(prefix)+3; i++ {
+							t := l.Scan()
+							s += fmt.Sprintf("%d %q @%d %d:%d ctx=%v | ", t.Type, t.Lit, t.Offset, t.Line, t.Column, t.Ctx)
+							if t.Type == 1 {
+								break
+							}
+						}
+						return s
+					}
+					freshC := rawAll(im.NewLexerCtx(prefix))
+					for _, j := range []int{0, 1, len(freshToks)} {
+						l := im.NewLexerCtx(prefix)
+						for k := 0; k < j; k++ {
+							l.Scan()
+						}
+						l.Reset()
+						st.add("lexer_histories", 1)
+						if got := rawAll(l); got != freshC {
+							st.violation("C16", it.ID+" lexer-ctx "+strconv.Quote(string(prefix))+fmt.Sprint(" j=", j),
+								fmt.Sprintf("lexer with a Context on %q: after %d Scan calls and Reset the tokens are %s; a fresh lexer gives %s", prefix, j, got, freshC),
+								map[string]any{"input": strconv.Quote(string(prefix)), "scans_before_reset": j, "got": got, "fresh": freshC})
+							break
+						}
+					}
+				}
 				if d == 0 {
 					return
 				}
